@@ -216,6 +216,11 @@ def run(F, R, tier):
         R.touched("ebpf_cgroup.c::" + f)
     src = "linux-ebpf/ebpf_cgroup.c"
 
+    # the skip-process check by role, whatever it is called: the helper that looks the pid up in skip_process_map
+    skip_fns = [fname for fname, fn in fns.items() if fname not in ("connect4", "tcp_v4_connect", "authorize_v4", "trace_v4") and
+                any(n.get("kind") == "CallExpr" and strip(n["inner"][0]).get("ref") == "bpf_map_lookup_elem" and len(n["inner"]) > 1 and
+                    "skip_process_map" in expr_str(n["inner"][1]) for n in walk(fn))] or ["check_skip_process_map_entry"]
+    SKIP = skip_fns[0]
     # ------------------------------------------------------------------ R1
     n_ext = 0
     for fname, fn in fns.items():
@@ -240,13 +245,13 @@ def run(F, R, tier):
                                 fname, expr_str(n), (w or ("?", "?"))[1], (w or ("?",))[0],
                                 HELPER_WORDS.get((w or ("", ""))[0], {}).get((w or ("", ""))[1], "an unrecognised expression"), fld,
                                 HELPER_WORDS[want[0]][want[1]]))
-            if n.get("kind") == "CallExpr" and strip(n["inner"][0]).get("ref") == "check_skip_process_map_entry":
+            if n.get("kind") == "CallExpr" and strip(n["inner"][0]).get("ref") == SKIP:
                 w = word_of(n["inner"][1], env)
                 n_ext += 1
                 R.check(w == WANT["skip-pid"], "C06.R1", R.key("C06.R1", fname, "skip-pid"), "%s:%s" % (src, n.get("line")),
                         "%s checks the skip map with the tgid (high word of pid_tgid)" % fname,
                         "%s checks the skip map with %s" % (fname, w))
-    R.floor("C06.R1", n_ext, 8, "uid / pid extraction uses in the C program")
+    R.floor("C06.R1", n_ext, 6, "uid / pid extraction uses in the C program")
 
     # ------------------------------------------------------------------ R2
     def key_fields(fn, kv):
@@ -328,7 +333,7 @@ def run(F, R, tier):
     if ul:
         sw = statements_with_facts(ul)
         upd = [(s, f) for s, f in sw if any(n.get("kind") == "CallExpr" and strip(n["inner"][0]).get("ref") == "bpf_map_update_elem" and "local_map" in expr_str(n["inner"][1]) for n in walk(s))]
-        ok = len(upd) == 1 and not_taken(upd[0][1], "check_skip_process_map_entry(")
+        ok = len(upd) == 1 and not_taken(upd[0][1], SKIP + "(")
         R.check(ok, "C06.R2", "C06.R2:update_local_map_entry:not-skipped", src,
                 "the original destination is recorded in local_map only after the skip-process check returned 'not skipped'")
         rec = {}
@@ -361,7 +366,7 @@ def run(F, R, tier):
                     continue
                 n_aud += 1
                 fs = set(facts)
-                not_skipped = not_taken(fs, "check_skip_process_map_entry(")
+                not_skipped = not_taken(fs, SKIP + "(")
                 hit = any(("if", "%s != NULL" % v) in fs for v in list(loc) + list(pol))
                 R.check(not_skipped and hit, "C06.R2", R.key("C06.R2", "trace_v4", "audit-write"), "%s:%s" % (src, n.get("line")),
                         "audit record written only for a non-skipped process under a local_map / policy_map hit",
